@@ -30,7 +30,7 @@ func genA(t *rapid.T) CaseA {
 	o := genOptions(t)
 	cfg := genConfig(t, o)
 	wild := rapid.SampledFrom([]int{0, 1, 1, 2, 2, 2}).Draw(t, "wild")
-	collide := wild > 0 && rapid.IntRange(0, 99).Draw(t, "collide") < 6
+	collide := wild > 0 && rapid.IntRange(0, 99).Draw(t, "collide") >= 94
 	p := newPrinter(t, wild, collide)
 	tree := p.tree(cfg)
 	st := p.style()
@@ -105,7 +105,11 @@ func comparePositive(prefix string, want profile.HavocConfig, src string, spell 
 	}
 	sort.SliceStable(diffs, func(i, j int) bool { return rank(diffs[i]) > rank(diffs[j]) })
 	d := diffs[0]
-	return core.V(fmt.Sprintf("%s|value-mismatch|%s|%s", prefix, d.Kind, topClass(spell[d.AttrPath])),
+	kind := d.Kind
+	if topClass(spell[d.AttrPath]) == "x-escape-then-raw-hex-digit" {
+		kind = "text" // string, label, map key: one defect of the string-literal unescaper
+	}
+	return core.V(fmt.Sprintf("%s|value-mismatch|%s|%s", prefix, kind, topClass(spell[d.AttrPath])),
 		"%s: written %s, loaded %s (%d differing item(s); spelling classes of this attribute: %v)\n--- profile ---\n%s", d.Path, d.Want, d.Got, len(diffs), spell[d.AttrPath], src)
 }
 
